@@ -290,6 +290,7 @@ struct Ev<'a> {
     atom: Atom,
     look: bool,
     active: HashSet<(String, usize, Atom, usize)>,
+    nested: HashMap<(String, usize, Atom), u32>,
     fuel: u64,
     depth: usize,
     facts: Facts,
@@ -478,6 +479,14 @@ impl<'a> Ev<'a> {
         if !self.active.insert(key.clone()) {
             return Err(Abort::Diverges(format!("rule {} re-entered at position {} without progress", rule.name, self.pos)));
         }
+        // nested re-entries at the same position with a *different* stack (e.g. recursion through
+        // PUSH_LITERAL("")): not provably endless, but runaway -- give up on the case early
+        let nk = (rule.name.clone(), self.pos, self.atom);
+        let cnt = self.nested.entry(nk.clone()).or_insert(0);
+        *cnt += 1;
+        if *cnt > 48 {
+            return Err(Abort::Undefined("runaway zero-width recursion with a changing stack".into()));
+        }
         self.depth += 1;
         self.facts.max_depth = self.facts.max_depth.max(self.depth);
         if self.depth > MAX_DEPTH {
@@ -508,6 +517,9 @@ impl<'a> Ev<'a> {
         self.atom = saved_atom;
         self.depth -= 1;
         self.active.remove(&key);
+        if let Some(c) = self.nested.get_mut(&nk) {
+            *c -= 1;
+        }
         let ok = r?;
         if ok {
             if emit {
@@ -718,6 +730,7 @@ pub fn run_with(g: &CGrammar, rule: &str, input: &str, fuel: u64, stack: Vec<Str
         atom: Atom::NonAtomic,
         look: false,
         active: HashSet::new(),
+        nested: HashMap::new(),
         fuel,
         depth: 0,
         facts: Facts::default(),
